@@ -55,6 +55,9 @@ def run(ctx: Ctx):
     check_repeat(ctx, repo.func(f"{QC}.repeat"))
     check_remove_identities(ctx, repo.func("qcircuit.qcircuitenhanced.QCircuitEnhanced.remove_identities"))
     check_mirror(ctx, repo.func(f"{QC}.qft"), repo.func(f"{QC}.iqft"))
+    from .. import gatealg as _ga
+
+    ctx.section(_ga.check_involution, ctx, ('qcircuit.qcircuit',))
 
 
 def check_append_circuit(ctx: Ctx, fi: FuncInfo):
